@@ -271,6 +271,17 @@ def feat_repr(feat):
 
 
 def frame_repr(tf):
+    """canonical representation of a real frame; a frame that cannot even be read (a mutated library may return
+    tensors of unexpected rank) is reported as such instead of crashing the check"""
+    try:
+        return _frame_repr(tf)
+    except Exception as e:
+        return {'unreadable': type(e).__name__}
+
+
+def _frame_repr(tf):
+    if tf.y is not None and tf.y.dim() != 1:
+        return {'unreadable': f'target of rank {tf.y.dim()}'}
     return {'feats': [[s.value, feat_repr(f)] for s, f in tf.feat_dict.items()],
             'names': [[s.value, list(ns)] for s, ns in tf.col_names_dict.items()],
             'y': None if tf.y is None else [bits(x) for x in tf.y.tolist()],
@@ -280,6 +291,8 @@ def frame_repr(tf):
 
 def repr_well_formed(fr):
     """representation invariants of every container of a frame repr"""
+    if 'unreadable' in fr:
+        return False
     for _, f in fr['feats']:
         subs = [m for _, m in f['d']] if f['k'] == 'dict' else [f]
         for m in subs:
@@ -345,6 +358,15 @@ def cells_of_featdata(s, f):
 
 def compare_to_ref(tf, ref):
     """first difference between a real frame and the reference, or None"""
+    try:
+        return _compare_to_ref(tf, ref)
+    except Exception as e:
+        return f'the result cannot be read ({type(e).__name__})'
+
+
+def _compare_to_ref(tf, ref):
+    if tf.y is not None and tf.y.dim() != 1:
+        return f'the target of the result has rank {tf.y.dim()}'
     if len(tf) != ref['n'] or tf.num_rows != ref['n']:
         return f'reported length {len(tf)} but {ref["n"]} rows were selected'
     if [s.value for s in tf.feat_dict] != ref['feat_order']:
@@ -382,6 +404,26 @@ def ref_column(ref, name):
 
 def all_names(spec):
     return [n for ft in spec['feats'] for n in ft['names']]
+
+
+class Findings:
+    """findings of the direct oracle are produced while the real code runs; they are remembered per case so that
+    `oracle(case, outcome)` is a function of the case (the engine calls it again when it builds the verdict)"""
+
+    def remember(self, case, findings):
+        self.__dict__.setdefault('_fcache', {})[_h(case)] = list(findings)
+
+    def recall(self, case):
+        h = _h(case)
+        if h not in self.__dict__.setdefault('_fcache', {}):
+            self.real(case)
+        return self._fcache[h]
+
+
+def _h(case):
+    import hashlib
+    import json
+    return hashlib.sha1(json.dumps(case, sort_keys=True, default=str).encode()).hexdigest()
 
 
 # ------------------------------------------------------------------ programs on frames
